@@ -289,6 +289,12 @@ def replay(topology, n, kind, batched, vals):
 
 
 def run_task(task, tr):
+    if task[0] == 'dates':
+        # sampling dates -> leaf heights with symbolic dates / newick tip orders (CrossHair, chk/c06_dates*.py)
+        from chk import c06_dates
+
+        c06_dates.run(tr, task[1], postorder=True)
+        return
     from torchtree.evolution import tree_height_transform as tht
     from torchtree.evolution import tree_model as tm
 
@@ -430,10 +436,10 @@ def body(chk):
                        'orderings are path regions enumerated until the solver certifies coverage; tip placement, '
                        'parent>=child, branch lengths, the documented recursion, both inverse identities and the '
                        'device/dtype clause are proved for all real parameter values on every region')
-    chk.total.assumptions |= {'sampling times are injected as a symbolic tensor after construction '
-                              '(date parsing from taxa attributes runs concretely)',
+    chk.total.assumptions |= {'transform tasks: sampling times are injected as a symbolic tensor after construction; how dates '
+                              'become sampling times is decided by the dates sub-check (CrossHair) for symbolic dates',
                               'cuda() is exercised through cpu()/to(dtype): no GPU in the sandbox'}
-    pmap(run_task, tasks_for(chk.tier), chk.total)
+    pmap(run_task, [('dates', chk.tier)] + list(tasks_for(chk.tier)), chk.total)
 
 
 if __name__ == '__main__':
